@@ -1,6 +1,7 @@
 package gaussian
 
 import (
+	"errors"
 	"fmt"
 	"math"
 	"strconv"
@@ -247,6 +248,13 @@ func NewCalculator(
 	// account for large standard deviations or peaks beyond the window
 	coveredRegion := gauss.CDF(float64(repeatWindow-frequency)) - gauss.CDF(0)
 	multiplier /= coveredRegion
+
+	// a window that covers none of the distribution, or weights without a usable mean, would turn every
+	// rate into NaN, i.e. math.MinInt64 requests per tick
+	if math.IsNaN(multiplier) || math.IsInf(multiplier, 0) || averageWeight == 0 || math.IsNaN(averageWeight) {
+		return nil, errors.New("gaussian: no rate can be derived: the repeat window covers none of the " +
+			"distribution (move the peak inside the window or increase the standard deviation) or the weights sum to zero")
+	}
 
 	return &Calculator{
 		frequency:     frequency,
